@@ -5,6 +5,12 @@ HOOK_COMMITS = []
 MC = "model_checking"
 
 CHECKS = {
+    "C01": {
+        "category": MC,
+        "technique": "TLA+ spec ControlPlane (registry, two consul watchers, update loop) model-checked with TLC incl. liveness; TLC-generated registry histories replayed through a fake Consul into the real consul backend + main.watchBackend, recorded event trace validated by TLC against the spec; Health.tla check-multiset rule enumerated and replayed into passingServices",
+        "text": "Every interleaving of registry changes, both watchers (including the health-snapshot/catalog skew) and the update loop is explored for the bounded universe and QuiescentCorrect/LastGood/Isolation plus EventuallyCorrect (liveness) are decided by TLC; the same spec generates registry histories with the table prescribed at quiescence, which are applied to a fake Consul HTTP API serving fabio's real consul backend and real update loop, comparing route.GetTable() after every change; every execution is recorded (fake-Consul events + SetTable hook, one logical clock) and must be accepted by ControlPlane_Trace with the invariants evaluated at every step. The health rule itself is enumerated over every multiset of <=3/4 checks x 28 configurations and replayed into passingServices/checksWithTagPrefix.",
+        "note": "Bounded: 3 instances (two of one service with the same service id on two nodes), 5 instance states, 3 node states, 5 override texts, <=3 (quick) / 4 (thorough) changes exhaustively in the model, histories of <=2/3 changes exhaustively plus seeded random ones of 8-12 changes against the code. 'Observed' is read as 'delivered to the update loop'. Trusts TLC, the fake Consul's blocking-query semantics, the hook placement (after table.Store), Go toolchain.",
+    },
     "C05": {
         "category": MC,
         "technique": "TLA+ spec RouteLang model-checked with TLC; every examined transition and seeded simulation behaviours replayed into route.NewTable/NewTableCustom/Table.String (model-based conformance)",
